@@ -1,0 +1,28 @@
+//go:build verif
+
+// Contracts for package unbounded, checked by /verif (gvc).  This file
+// contains no declarations; it is compiled only with the verif build tag.
+
+package unbounded
+
+//@ -- the queue is only touched with ch.mu held (C13)
+//@ guarded Channel.mu: queue
+//@
+//@ -- C13: every queued action is returned exactly once and in queue order (linearised view: Put appends
+//@ -- at the end and changes nothing else; Get returns the whole queue and leaves it empty)
+//@ func (*Channel[any]).Put[any]
+//@   props C13
+//@   requires nonnil: ch != nil
+//@   requires unlocked: !held(ch.mu)
+//@   modifies ch.queue, full(ch.queue), held(ch.mu)
+//@   ensures unlocked: !held(ch.mu)
+//@   ensures appended: len(ch.queue) == len(old(ch.queue)) + 1 && same(ch.queue[len(old(ch.queue))], v)
+//@   ensures order-kept: forall k int :: 0 <= k && k < len(old(ch.queue)) ==> same(ch.queue[k], old(ch.queue[k]))
+//@
+//@ func (*Channel[any]).Get[any]
+//@   props C13
+//@   requires nonnil: ch != nil
+//@   requires unlocked: !held(ch.mu)
+//@   modifies ch.queue, held(ch.mu)
+//@   ensures unlocked: !held(ch.mu)
+//@   ensures all-once: same(result, old(ch.queue)) && len(ch.queue) == 0 && isnil(ch.queue)
